@@ -336,6 +336,20 @@ class Interp:
     def instantiate(self, cls, args, kwargs):
         if cls.builtin_base is None:
             _ = cls.bases
+        if any(c.builtin_base == 'list' for c in cls.mro()):
+            # a subclass of list: a list cell that also carries a class (methods / properties) and instance attributes
+            r = self.st.alloc('clist', [], name=cls.name)
+            r.cls = cls
+            r.meta['attrs'] = {}
+            init = cls.lookup('__init__')
+            if init is not UNDEF:
+                self.call(init, [r] + list(args), kwargs)
+            elif args:
+                items = self.models.concrete_iter(self, args[0])
+                if items is None:
+                    raise Unsupported('%s(symbolic sequence)' % cls.name)
+                self.st.heap[r] = list(items)
+            return r
         r = self.st.alloc('obj', {}, name=cls.name)
         r.cls = cls
         new = cls.lookup('__new__')
